@@ -2,7 +2,7 @@
 # run_seed.sh <seed-id> [prop] : apply the seeded change to /repo, run the property's quick check, undo.
 id=$1; prop=${2:-${id%%_*}}
 if [ -n "$(git -C /repo status --porcelain)" ]; then echo "REFUSING: /repo dirty"; exit 4; fi
-git -C /repo apply /verif/seeded/$id/patch.diff 2>/dev/null || (cd /repo && patch -p1 -F3 -s < /verif/seeded/$id/patch.diff && find . -name "*.orig" -delete) || { echo "APPLY FAILED $id"; git -C /repo checkout -- .; exit 3; }
+git -C /repo apply /verif/seeded/$id/patch.diff 2>/dev/null || (cd /repo && patch -p1 -F3 -s < /verif/seeded/$id/patch.diff && find . -name "*.orig" -delete) || { echo "APPLY FAILED $id"; git -C /repo checkout -- .; find /repo -name "*.orig" -o -name "*.rej" | xargs -r rm -f; exit 3; }
 cd /verif && timeout ${SEED_TIMEOUT:-900} ./bin/govc check $prop 2>&1 | grep -v abstraction | cut -c1-260 | head -${SEED_LINES:-8}
 echo "exit=${PIPESTATUS[0]}"
 git -C /repo checkout -- .
